@@ -156,6 +156,8 @@ func features(p *Program) []string {
 			seen["has:cond/and/or"] = true
 		case KSet:
 			seen["has:set"] = true
+		case KRec, KDotCall:
+			seen["has:record/dotted-call"] = true
 		case KVar:
 			if n.Name == "map" || n.Name == "apply" {
 				seen["has:map/apply"] = true
